@@ -3,6 +3,9 @@
  *   mut TYPE SYNTAX HEX CLASSES [START]
  * CLASSES: letters  t=truncations  s=single-byte substitution x256  p=pairs over 8-symbol alphabet
  *          i=insertions  d=deletions  a=all strings of length <=2  b=length-3 strings over the alphabet
+ *          e=length lie with payload: single-byte substitution x256 in the first 6 octets (where the length
+ *            determinants of the outer levels live) followed by 48 filler octets, so that a larger quantity
+ *            than the constraint allows is not only claimed but really delivered
  * The current mutant (index + bytes) is mirrored into a shared file (env VERIF_CUR) so that a crash can be
  * attributed to one input by the Python side.
  */
@@ -81,6 +84,15 @@ void cmd_mut(char **a, int na) {
         if(isxml) { for(int j = 0; j < nal; j++) { if(al[j] == seed[p]) { idx++; continue; } m[p] = al[j]; one(td, sy, m, n, idx++, start, &st); }
                     for(int v = 0x80; v < 0x100; v += 0x1f) { m[p] = v; one(td, sy, m, n, idx++, start, &st); } }
         else for(int v = 0; v < 256; v++) { if(v == seed[p]) { idx++; continue; } m[p] = v; one(td, sy, m, n, idx++, start, &st); }
+    }
+    if(strchr(cls, 'e') && !isxml) {
+        unsigned char *e = __real_malloc(n + 48);
+        for(size_t p = 0; p < n && p < 6; p++) for(int v = 0; v < 256; v++) {
+            if(v == seed[p]) { idx++; continue; }
+            memcpy(e, seed, n); e[p] = v; memset(e + n, 0x41, 48);
+            one(td, sy, e, n + 48, idx++, start, &st);
+        }
+        __real_free(e);
     }
     if(strchr(cls, 'p')) for(size_t p = 0; p < n; p++) for(size_t q = p + 1; q < n; q++) {
         for(int j = 0; j < nal; j++) for(int k = 0; k < nal; k++) {
